@@ -447,6 +447,15 @@ def run(repo, res, tier):
             if directional:
                 sized = False
                 for n in ast.walk(eq):
+                    if isinstance(n, ast.Compare) and len(n.ops) >= 2 and all(isinstance(o, ast.Eq) for o in n.ops):
+                        # a chain len(a) == len(b) == ..: every neighbouring pair is an equation of its own
+                        terms = [n.left] + list(n.comparators)
+                        lens = [t for t in terms if isinstance(t, ast.Call) and call_name(t) == "len" and t.args]
+                        sides_ = set()
+                        for t in lens:
+                            sides_ |= side(t.args[0])
+                        if sides_ >= {me, ot}:
+                            sized = True
                     if isinstance(n, ast.Compare) and len(n.ops) == 1 and isinstance(n.ops[0], (ast.Eq, ast.NotEq)):
                         L, R = n.left, n.comparators[0]
                         if isinstance(L, ast.Call) and isinstance(R, ast.Call) and call_name(L) == "len" and call_name(R) == "len" and side(L.args[0]) | side(R.args[0]) == {me, ot}:
